@@ -108,6 +108,7 @@ type VCtx struct {
 	allFresh  []*Term           // every struct object allocated by this invocation
 	storedIn  map[string][]Val  // values stored into a not yet published fresh object / local cell (published with it)
 	pubCells  map[string]*Loc // captured variables of the closure under verification that follow the publication discipline
+	curState  *State // state in which monitorIsReceivers resolves lock paths
 	assertOld *State
 	assertExtra map[string]Val
 	exemptFresh []*Term // set while translating a global clause to be proved: unpublished fresh objects
@@ -676,6 +677,7 @@ type Frame struct {
 	unlocks  int
 	gos      int
 	closes   int
+	closures int
 	csEntry  *State // state right after the most recent lock acquisition performed by this frame
 	callbacks int
 	invokes  int
@@ -1055,6 +1057,7 @@ func (c *VCtx) execFunction(fr *Frame, st *State) (*State, Val) {
 			args = append(args, fr.env[p])
 		}
 		sc := c.contractScope(fn, fr.contract, nil, args, st, st, nil)
+		sc.fr = fr // (captured variables are found through the frame)
 		for _, a := range fr.contract.Assumes {
 			c.fact(Implies(st.pc, c.translateBool(sc, a.E)))
 			c.eng.assume("assumed (definitional) in " + FuncKey(fn) + ": " + a.Src)
